@@ -156,10 +156,29 @@ _DROP = ("t", "inv", "res")
 
 
 def to_lines(calls, obj):
-    """Merge the per-thread call records by stamp into inv / res lines, then the End line."""
+    """Merge the per-thread call records by stamp into inv / res lines, then the End line.
+    Data movement only: (a) an update() record gets the value returned by the get() the same thread made
+    next ("ng", a search hint, see HandOffTrace.tla); (b) harness sanity: the window of a burst record
+    must not overlap any consumer call (the driver holds the consumer between two calls during a burst)."""
+    per_thread = {}
+    for c in sorted(calls, key=lambda c: c["inv"]):
+        per_thread.setdefault(c["t"], []).append(c)
+    hint = {}
+    for t, cs in per_thread.items():
+        for a, b in zip(cs, cs[1:]):
+            if a["op"] == "update" and b["op"] == "get":
+                hint[a["inv"]] = b["v"]
+    cons = per_thread.get(0, [])
+    for c in calls:
+        if c["op"] in ("burst", "bpush"):
+            for d in cons:
+                if d["inv"] < c["res"] and c["inv"] < d["res"]:
+                    raise tla.InfraError("driver protocol broken: consumer call %s overlaps burst %s" % (d, c))
     ev = []
     for c in calls:
         rec = {k: v for k, v in c.items() if k not in _DROP}
+        if c["inv"] in hint and c["op"] == "update":
+            rec["ng"] = hint[c["inv"]]
         ev.append((c["inv"], 0, {"k": "inv", "t": c["t"], "c": rec}))
         ev.append((c["res"], 1, {"k": "res", "t": c["t"], "c": rec}))
     ev.sort(key=lambda e: (e[0], e[1]))
